@@ -9,7 +9,7 @@ use blsful::inner_types::{Field, Group};
 use blsful::*;
 use serde_json::json;
 
-pub const RULE: &str = "recipient keys (random) x plaintext scalars from E (1,2,3,r-1,r-2,2^254,...,random) and at word / limb boundaries (255, 2^32-1, 2^32, 2^63-1, 2^63, 2^63+1, 2^64-1, 2^64, 2^128, 2^248, 2^253 in the quick tier; 2^k-1, 2^k, 2^k+1 for 17 values of k in the thorough tier) x 2 groups: decrypt(sk) must equal m*H where H is recomputed by the reference as hash_to_curve(compress(P), ENC_DST) in the key group; the library's message_generator() must equal the reference's bytes. Sums of k in {2,3,16} ciphertexts through every Add / AddAssign impl (6) must decrypt to (sum m_i)*H, for five plaintext patterns: random, wrapping around r, cancelling to zero (the sum decrypts to the identity), 1 + (r-1) + cancelling rest, summing to one. All workloads run in the release and in the checked (debug assertions + overflow checks) build. Decryption shares built with the public public_key_share_with_generator(share, c1) for every (t,n) with n<=4 (quick) / n<=5 (thorough): every subset in ascending, reversed and shuffled order; >=t must decrypt to m*H via ElGamalDecryptionKey::from_shares, <t must not; plus 2-of-255 and 5-of-255 splits recombined from the 10 highest identifiers (both orders), the 21 lowest, 9 around 128 and all 255. Proofs: verify(pk), verify_and_decrypt(sk)==m*H, the reference verifier accepts the library's proof and reproduces its challenge from the merlin transcript, the library accepts a reference-built proof; perturbations that must be rejected: c1+G, c2+G, c1<->c2, each of the 3 scalars +1, challenge of another proof, ciphertext of another proof, other pk, -pk, pk+G; verify_and_decrypt with a non-matching key. History clusters (2 quick / 32 thorough per group): two proofs for one recipient and six single-component variants through verify / verify under another key / verify_and_decrypt / verify_and_decrypt with another key, plus decrypt, asked in every ordered pair (a,b) as a,b,b,a; every answer must equal the answer the question has on its own. Distinct by (suite,kind,inputs).";
+pub const RULE: &str = "recipient keys (random, every fourth an edge scalar; plus every edge scalar 1, 2, 3, r-1, ... once as recipient with and without proof) x plaintext scalars from E (1,2,3,r-1,r-2,2^254,...,random) and at word / limb boundaries (255, 2^32-1, 2^32, 2^63-1, 2^63, 2^63+1, 2^64-1, 2^64, 2^128, 2^248, 2^253 in the quick tier; 2^k-1, 2^k, 2^k+1 for 17 values of k in the thorough tier) x 2 groups: decrypt(sk) must equal m*H where H is recomputed by the reference as hash_to_curve(compress(P), ENC_DST) in the key group; the library's message_generator() must equal the reference's bytes. Sums of k in {2,3,16} ciphertexts through every Add / AddAssign impl (6) must decrypt to (sum m_i)*H, for five plaintext patterns: random, wrapping around r, cancelling to zero (the sum decrypts to the identity), 1 + (r-1) + cancelling rest, summing to one. All workloads run in the release and in the checked (debug assertions + overflow checks) build. Decryption shares built with the public public_key_share_with_generator(share, c1) for every (t,n) with n<=4 (quick) / n<=5 (thorough): every subset in ascending, reversed and shuffled order; >=t must decrypt to m*H via ElGamalDecryptionKey::from_shares, <t must not; plus 2-of-255 and 5-of-255 splits recombined from the 10 highest identifiers (both orders), the 21 lowest, 9 around 128 and all 255. Proofs: verify(pk), verify_and_decrypt(sk)==m*H, the reference verifier accepts the library's proof and reproduces its challenge from the merlin transcript, the library accepts a reference-built proof; perturbations that must be rejected: c1+G, c2+G, c1<->c2, each of the 3 scalars +1, challenge of another proof, ciphertext of another proof, other pk, -pk, pk+G; verify_and_decrypt with a non-matching key. History clusters (2 quick / 32 thorough per group): two proofs for one recipient and six single-component variants through verify / verify under another key / verify_and_decrypt / verify_and_decrypt with another key, plus decrypt, asked in every ordered pair (a,b) as a,b,b,a; every answer must equal the answer the question has on its own. Distinct by (suite,kind,inputs).";
 
 pub fn run(ctx: &mut Ctx) {
     for_both!(run_suite, ctx);
@@ -62,6 +62,35 @@ fn run_suite<C: Suite>(ctx: &mut Ctx) {
                 continue;
             }
             sums::<C>(ctx, g, k, rep);
+        }
+    }
+    // every edge scalar as RECIPIENT key (public key = generator for sk = 1), with and without proof
+    {
+        let mut erng2 = ctx.rng_l(base, "recipient-edges");
+        for (kname, k) in gen::edge_scalars(&mut erng2) {
+            g += 1;
+            if !ctx.mine(g) {
+                continue;
+            }
+            let sk = sk_from_rs::<C>(&k);
+            let pk = sk.public_key();
+            let m = gen::random_scalar(&mut erng2);
+            let want = hm::<C>(&m);
+            let d = || json!({"suite":n,"recipient_sk_class":kname,"recipient_sk":hex::encode(k.to_be_bytes()),"m":hex::encode(m.to_be_bytes())});
+            match ctx.guard("PublicKey::encrypt_key_el_gamal", d, || pk.encrypt_key_el_gamal(&sk_from_rs::<C>(&m))) {
+                Some(Ok(ct)) => { ctx.expect(enc_pt(&ct.decrypt(&sk)) == want, &format!("C14/decrypt-wrong/{n}"), || d()); }
+                Some(Err(e)) => ctx.violation(&format!("C14/encrypt-failed/{n}"), { let mut x = d(); x["error"] = json!(e.to_string()); x }),
+                None => {}
+            }
+            match ctx.guard("PublicKey::encrypt_key_el_gamal_with_proof", d, || pk.encrypt_key_el_gamal_with_proof(&sk_from_rs::<C>(&m))) {
+                Some(Ok(p)) => {
+                    let ok = p.verify(pk).is_ok() && p.verify_and_decrypt(&sk).ok().map(|x| enc_pt(&x)).as_deref() == Some(&want[..]);
+                    ctx.expect(ok, &format!("C14/honest-proof-rejected/{n}"), || d());
+                }
+                Some(Err(e)) => ctx.violation(&format!("C14/prove-failed/{n}"), { let mut x = d(); x["error"] = json!(e.to_string()); x }),
+                None => {}
+            }
+            ctx.hit(&format!("{n}/proof/honest"), &[b"edge recipient", &k.to_be_bytes()]);
         }
     }
     // history clusters
